@@ -611,6 +611,45 @@ class OutputAgent:
             raise experiment.model.errors.ExperimentInvalidConfigurationError("Error in output monitor configuration",
                                                                               underlyingError)
 
+        self._restore_recorded_status()
+
+    def _restore_recorded_status(self):
+        """Carries over what output/output.json already records about the key-outputs.
+
+        The listing is always rewritten from self.dataReferences. When the experiment is restarted from a later stage
+        (or the key-outputs are parsed again) the entries of key-outputs that this process does not produce again
+        would otherwise disappear from output.txt/output.json.
+        """
+        json_file = os.path.splitext(self.outputFile)[0] + '.json'
+
+        try:
+            with open(json_file) as f:
+                recorded = json.load(f)
+        except Exception:
+            return
+
+        if isinstance(recorded, dict) is False:
+            return
+
+        for name in recorded:
+            entry = recorded[name]
+            if name not in self.dataReferences or isinstance(entry, dict) is False:
+                continue
+            try:
+                version = int(entry['version'])
+            except Exception:
+                continue
+
+            if version <= 0 or not entry.get('filepath'):
+                continue
+
+            status = self.dataReferences[name]['status']
+            status['version'] = version
+            status['lastLocation'] = entry['filepath']
+            status['creationTime'] = entry.get('creationtime')
+            status['final'] = entry.get('final', status['final'])
+            status['production'] = entry.get('production', status['production'])
+
     @property
     def experiment(self):
         # type: () -> Experiment
